@@ -2867,12 +2867,14 @@ class C18(SimpleSpec):
     pid = "C18"
     model_imports = ["Base", "Extracted", "Show", "Lock", "ShowLock"]
     coq_files = ["Properties/C18.v"]
-    theorems = ["C18_mutex", "C18_no_torn_read", "C18_quiescent_files_agree", "C18_no_lost_update", "C18_locks_are_exclusive"]
+    theorems = ["C18_mutex", "C18_no_torn_read", "C18_quiescent_files_agree", "C18_no_lost_update", "C18_files_are_exactly_the_commits", "C18_every_read_is_a_serial_state", "C18_locks_are_exclusive"]
     level_text = ("Theorems about a transition-system model of N processes sharing one store directory, for EVERY number of "
                   "processes, every assignment of roles (committing / dropping) and every schedule (any list of process ids, so any "
                   "think time): mutual exclusion of the load..commit sections, every loaded triple of files is one committed state "
                   "(no torn read), the files agree with the serial history whenever nobody is inside, and every finished committer's "
-                  "marker is in all three files (no lost update). The per-process action lists (lock, read x3, write x3, release) and "
+                  "marker is in all three files (no lost update); and nothing else: each file is the initial content followed by a "
+                  "duplicate-free list whose members are precisely the finished committers (C18_files_are_exactly_the_commits), and "
+                  "whatever any invocation has read of a file is a prefix of the serial history (C18_every_read_is_a_serial_state). The per-process action lists (lock, read x3, write x3, release) and "
                   "the facts 'the store lock / cache lock is an exclusive flock taken before the first read, a contended attempt "
                   "blocks, dropping the FileLock unlocks' are re-read from storage.rs / flock.rs by the translator on every run. "
                   "PARTIAL: flock(2) itself (exclusive between open file descriptions, released on unlock/close) is the DEFINITION of "
